@@ -252,6 +252,17 @@ func TestC18Readers(t *testing.T) {
 			t.Fatalf("Write failed: %v", err)
 		}
 		b := buf.Bytes()
+		variant := "as written"
+		if rapid.IntRange(0, 2).Draw(t, "emptyLast") == 0 {
+			// corpus variant: the same tables re-assembled in tag order with an
+			// empty table as the physically last one
+			if rf0, err := refsfnt.Parse(b); err == nil {
+				tables := rf0.Tables()
+				tables[rapid.SampledFrom([]string{"zzzz", "prep", "vmtx"}).Draw(t, "emptyTag")] = []byte{}
+				b = refsfnt.Assemble(rf0.Scaler, tables)
+				variant = "re-assembled with an empty last table"
+			}
+		}
 		L := len(b)
 		clean, err := sfnt.Read(bytes.NewReader(b))
 		if err != nil {
@@ -311,8 +322,8 @@ func TestC18Readers(t *testing.T) {
 				}
 			}
 			stats.CaseIn("readers", stats.Hash(b, k), inside, func() string {
-				return fmt.Sprintf("%s: fault/truncation at %d of %d (4 reader flavours)", c, k, L)
-			})
+				return fmt.Sprintf("%s (%s): fault/truncation at %d of %d (4 reader flavours)", c, variant, k, L)
+			}, variant)
 		}
 	})
 }
